@@ -521,6 +521,8 @@ class ReducePartsToLocation:
                 and result.parts[1].start == 0 and result.parts[1].end == max(p.end for p in lower)
                 and all(p.strand == 1 for p in result.parts))
 
+    returns = OneOf(FL, CL(2, 2))
+
 
 @spec
 def same_part(a, b):
